@@ -282,7 +282,63 @@ func preliminaryProcessesChecks(processes []*Process, assumedFreeNames []Name, g
 		}
 	}
 
+	// The processes must form a forest: a process may use the channel provided by another one, but
+	// not in a cycle (e.g. prc[a] : 1 = wait b; ... and prc[b] : 1 = wait a; ...), where each
+	// would wait for the other forever
+	if i := processInCycle(processes); i >= 0 {
+		return fmt.Errorf("(%s) process %s takes part in a cycle of processes that use each other", processes[i].Position.String(), processes[i].OutlineString())
+	}
+
 	return nil
+}
+
+// Returns the index of some process which (transitively) uses its own provider through other
+// processes, or -1 if there is no such cycle
+func processInCycle(processes []*Process) int {
+	providedBy := make(map[string]int)
+	for i := range processes {
+		for _, provider := range processes[i].Providers {
+			providedBy[provider.Ident] = i
+		}
+	}
+
+	const (
+		unvisited = iota
+		inProgress
+		finished
+	)
+	state := make([]int, len(processes))
+
+	var visit func(i int) int
+	visit = func(i int) int {
+		state[i] = inProgress
+		for _, fn := range processes[i].Body.FreeNames() {
+			j, isProcess := providedBy[fn.Ident]
+			if !isProcess || j == i {
+				continue
+			}
+			if state[j] == inProgress {
+				return j
+			}
+			if state[j] == unvisited {
+				if k := visit(j); k >= 0 {
+					return k
+				}
+			}
+		}
+		state[i] = finished
+		return -1
+	}
+
+	for i := range processes {
+		if state[i] == unvisited {
+			if k := visit(i); k >= 0 {
+				return k
+			}
+		}
+	}
+
+	return -1
 }
 
 // Ensure that for Γ ⊢ P :: (a : A), Γ ≥ A, where A is the succedentType
